@@ -825,10 +825,14 @@ def Engine.handlePackets : Engine → List Packet → Engine × Res
     let (e1, r) := e.handleOnePacket p
     if !r.isOk then (e1, r) else e1.handlePackets rest
 
+/-- `is_connect_in_queue`: the CONNECT of this connection is still queued or only partially encoded -/
+def Engine.connectUnsent (e : Engine) : Bool :=
+  (match e.current with | some id => isConnectOp e id | none => false) || e.highQ.any (isConnectOp e)
+
 /-- `handle_network_event_incoming_data` -/
 def Engine.handleData (e : Engine) (data : Bytes) : Engine × Res :=
   if e.state == .disconnected || e.state == .halted then (e, .err "InternalStateError")
-  else if e.state == .pendingConnack && e.highQ.any (isConnectOp e) then
+  else if e.state == .pendingConnack && e.connectUnsent then
     ({ e with state := .halted }, .err "ProtocolError")
   else
     let cfg : DecodeCfg := { version := e.cfg.version, maxSize := e.cfg.connect.maximumPacketSize.getD maxVli }
@@ -1116,10 +1120,11 @@ def foldTime (base : Option Nat) (new : Nat) : Option Nat :=
   | some b => if b < new then some b else some new
   | none => some new
 
-/-- fold the earliest ack timeout into a time, unless it belongs to the operation being written -/
+/-- fold in the earliest ack timeout that `process_ack_timeouts` would apply (the record of the operation being written
+    is deferred and does not count) -/
 def Engine.foldAckTimeout (e : Engine) (t0 : Option Nat) : Option Nat :=
-  match e.nextAckTimeout with
-  | some (id, d) => if e.current != some id then foldTime t0 d else t0
+  match e.nextDueTimeout with
+  | some (_, d) => foldTime t0 d
   | none => t0
 
 /-- `get_next_service_timepoint`; the outer `Option` is `none` for an `unwrap()` panic -/
